@@ -18,11 +18,12 @@ SPEC = {
         {"name": "webhook", "pkg": "./webhook", "search_cases": 60, "timeout_quick": 300, "timeout_thorough": 900},
     ],
     "rule": "retry: the real pipeline from notify.PipelineBuilder.New (gossip-settle, mute/time stages with empty inhibitor/silencer/intervener, then per "
-            "integration Wait→Dedup→Retry→SetNotifies fanned out) with 1-3 scripted notifiers (0-6 scripted outcomes each: ok/recoverable/unrecoverable/hang, "
+            "integration Wait→Dedup→Retry→SetNotifies fanned out) with 1-3 scripted notifiers, one case in eight 5-8 of them with at least four that hang / fail recoverably until the flush deadline placed before a healthy one in configuration order (sibling_isolated class starved-by-siblings: an integration with something to send and a wait shorter than the deadline is attempted) (0-6 scripted outcomes each: ok/recoverable/unrecoverable/hang, "
             "durations from 0 to beyond the deadline), fake NotificationLog, flush deadline 0.3 s-3 min, cluster wait 0/50/500 ms, 1-4 alerts firing/resolved, "
             "send_resolved on/off, under synctest; every attempt observed at its virtual instant; backoff instants are accepted against the randomised "
             "exponential windows, not predicted. tmpldata: Template.Data and the real webhook notifier's JSON (loopback httptest) on batches of 0-5 alerts over a "
-            "3x3 label alphabet incl. empty annotation values; webhook (real time): the real notify/webhook notifier (real net/http client) with a per-request timeout of 30-120 ms against a loopback endpoint that hangs "
+            "3x3 label alphabet incl. empty annotation values, and `webhookp`: two or three consecutive notifications with different batches through ONE webhook notifier with a custom `payload` "
+            "(a YAML list holding a map, a template string, a nested list), the dump rebuilt from the rendered payload must describe the batch of that notification; webhook (real time): the real notify/webhook notifier (real net/http client) with a per-request timeout of 30-120 ms against a loopback endpoint that hangs "
             "or answers 2xx/4xx/5xx per script, as single Notify calls under a flush context a minute long and inside the real RetryStage (flush deadline 20-30 s, one or two "
             "recoverable failures, then the attempt that ends the loop); trunc: TruncateInRunes/InBytes on strings of 1-4-byte runes with limits around rune and byte counts "
             "(4% invalid UTF-8, totality only). non-trivial = hits a tagged branch.",
